@@ -16,14 +16,22 @@
 //   u same with wait_until(200ns)
 //   N {lock; flag=true; unlock; notify_one}    A {...; notify_all}     n notify_one    a notify_all     Y S as above
 // Thread programs: J(<prog>) spawn a thread running <prog> and join it, D(<prog>) spawn and detach, Y, S.
-// Thread-local programs: 0..3 store &cell[d] into pointer a, 4..7 store &cell[d-4] into pointer b,
-//   p read a, q read b, Y yield.
+// Thread-local programs: 0..3 store &cell[d] into pointer a (int*), 4..7 store &cell[d-4] into pointer b (int*),
+//   8..9 store &lcell[d-8] into pointer c (long*), p read a, q read b, r read c, Y yield.
 //
 // Trace vocabulary (besides the runtime's "<fiber>:<op>@m=..;"):
 //   ">f@t;"    the scheduler resumes fiber f, virtual time t (after the tick)
 //   "f:^;"     f yields at the injection point in front of its next wrapped operation
 //   "f:?i/n;"  a notify_one inside f's current operation removes element i of a queue of n parked fibers
 //   "f:!c <op> [arg];"  f is about to call <op>          "f:!r <op> <result> <now>;"   <op> returned
+#include <cstddef>
+#include <cstdint>
+#include <unordered_map>
+// the slot number of a thread-local pointer proxy is a private member; the harness reports it
+#define private public
+#include <yaclib_std/thread_local>
+#undef private
+
 #include "vrt_all.hpp"
 
 #include "vrt_main.hpp"
@@ -592,44 +600,64 @@ void RunThread(const std::shared_ptr<ThreadCtx>& c, const std::vector<Node>& pro
 
 // ---------------------------------------------------------------- thread-local pointers
 int gCells[4];
+long gLongCells[2];
 YACLIB_THREAD_LOCAL_PTR(int) gTlA;
 YACLIB_THREAD_LOCAL_PTR(int) gTlB;
+YACLIB_THREAD_LOCAL_PTR(long) gTlC;  // another pointee type: must still be another variable
 
-long CellIndex(int* p) {
+long CellIndex(const void* p) {
   if (p == nullptr) {
     return 0;
   }
-  if (p >= gCells && p < gCells + 4) {
-    return 1 + (p - gCells);
+  auto* c = static_cast<const char*>(p);
+  if (c >= reinterpret_cast<const char*>(gCells) && c < reinterpret_cast<const char*>(gCells + 4)) {
+    return 1 + (static_cast<const int*>(p) - gCells);
+  }
+  if (c >= reinterpret_cast<const char*>(gLongCells) && c < reinterpret_cast<const char*>(gLongCells + 2)) {
+    return 11 + (static_cast<const long*>(p) - gLongCells);
   }
   return 99;
 }
 
 void RunTls(const std::vector<Node>& prog) {
-  long mine_a = 0;
-  long mine_b = 0;
+  long mine[3] = {0, 0, 0};
+  const char* names[3] = {"a", "b", "c"};
   for (const auto& n : prog) {
+    int var = -1;
+    long got = 0;
     if (n.op == 'Y') {
       Yield();
     } else if (n.op >= '0' && n.op <= '3') {
       gTlA = &gCells[n.op - '0'];
-      mine_a = 1 + (n.op - '0');
-      vrt::Event("seta " + std::to_string(mine_a));
+      mine[0] = 1 + (n.op - '0');
+      vrt::Event("seta " + std::to_string(mine[0]));
     } else if (n.op >= '4' && n.op <= '7') {
       gTlB = &gCells[n.op - '4'];
-      mine_b = 1 + (n.op - '4');
-      vrt::Event("setb " + std::to_string(mine_b));
-    } else if (n.op == 'p' || n.op == 'q') {
-      const bool a = n.op == 'p';
-      const long got = CellIndex(a ? gTlA.Get() : gTlB.Get());
-      vrt::Event(std::string(a ? "geta " : "getb ") + std::to_string(got));
-      if (got != (a ? mine_a : mine_b)) {
-        vrt::Fail(std::string("thread-local pointer ") + (a ? "a" : "b") + " is not per fiber: read cell " +
-                  std::to_string(got) + " but this fiber stored " + std::to_string(a ? mine_a : mine_b));
-      }
+      mine[1] = 1 + (n.op - '4');
+      vrt::Event("setb " + std::to_string(mine[1]));
+    } else if (n.op >= '8' && n.op <= '9') {
+      gTlC = &gLongCells[n.op - '8'];
+      mine[2] = 11 + (n.op - '8');
+      vrt::Event("setc " + std::to_string(mine[2]));
+    } else if (n.op == 'p') {
+      var = 0;
+      got = CellIndex(gTlA.Get());
+    } else if (n.op == 'q') {
+      var = 1;
+      got = CellIndex(gTlB.Get());
+    } else if (n.op == 'r') {
+      var = 2;
+      got = CellIndex(gTlC.Get());
     } else {
       vrt::Fail(std::string("bad program token ") + n.op);
       return;
+    }
+    if (var >= 0) {
+      vrt::Event(std::string("get") + names[var] + " " + std::to_string(got));
+      if (got != mine[var]) {
+        vrt::Fail(std::string("thread-local pointer ") + names[var] + " is not this fiber's own variable: read cell " +
+                  std::to_string(got) + " but this fiber stored " + std::to_string(mine[var]) + " into it");
+      }
     }
   }
 }
@@ -682,6 +710,7 @@ void RunNamed(const std::string& name) {
       std::size_t i = 0;
       parsed.push_back(Parse(p, i));
     }
+    vrt::Event("slots " + std::to_string(gTlA._i) + " " + std::to_string(gTlB._i) + " " + std::to_string(gTlC._i));
     SpawnAndJoin(static_cast<int>(progs.size()), [&](int me) {
       RunTls(parsed[static_cast<std::size_t>(me - 1)]);
     });
